@@ -315,8 +315,14 @@ func emitSelects(o *out, name string, sels []selInfo) {
 		if i == len(sels)-1 {
 			sep = ""
 		}
-		o.f("  { cases := %s, hasDefault := %v, loopDepth := %d }%s\n",
-			leanStrList(s.cases), s.hasDefault, s.loopDepth, sep)
+		hasTimer := false
+		for _, c := range s.cases {
+			if strings.HasPrefix(c, "recv time.After(") {
+				hasTimer = true
+			}
+		}
+		o.f("  { cases := %s, hasDefault := %v, loopDepth := %d, hasTimer := %v }%s\n",
+			leanStrList(s.cases), s.hasDefault, s.loopDepth, hasTimer, sep)
 	}
 	o.f("]\n\n")
 }
@@ -360,6 +366,50 @@ func readCalls(p *pkg, fd *ast.FuncDecl) []string {
 		return true
 	})
 	return res
+}
+
+// guardedCalls reports, for every call of `callee` inside fd, whether it is
+// enclosed by an if statement whose condition is textually `cond`.
+func guardedCalls(p *pkg, fd *ast.FuncDecl, callee, cond string) []bool {
+	var res []bool
+	if fd == nil {
+		return res
+	}
+	var walk func(n ast.Node, guarded bool)
+	walk = func(n ast.Node, guarded bool) {
+		ast.Inspect(n, func(m ast.Node) bool {
+			if m == n {
+				return true
+			}
+			switch x := m.(type) {
+			case *ast.IfStmt:
+				g := guarded || exprStr(p.fset, x.Cond) == cond
+				if x.Init != nil {
+					walk(x.Init, guarded)
+				}
+				walk(x.Body, g)
+				if x.Else != nil {
+					walk(x.Else, guarded)
+				}
+				return false
+			case *ast.CallExpr:
+				if exprStr(p.fset, x.Fun) == callee {
+					res = append(res, guarded)
+				}
+			}
+			return true
+		})
+	}
+	walk(fd.Body, false)
+	return res
+}
+
+func leanBoolList(l []bool) string {
+	q := make([]string, len(l))
+	for i, b := range l {
+		q[i] = fmt.Sprint(b)
+	}
+	return "[" + strings.Join(q, ", ") + "]"
 }
 
 // holdsMutex reports whether the function body starts by locking some mutex
@@ -456,6 +506,8 @@ func main() {
 		leanStrList(calls(g, g.anyFunc("IntervalAwareForceTicker", "Stop"))))
 	o.f("def calls_tickerResetWithInterval : List String := %s\n",
 		leanStrList(calls(g, g.anyFunc("IntervalAwareForceTicker", "ResetWithInterval"))))
+	o.f("def guarded_pongReset : List Bool := %s\n", leanBoolList(guardedCalls(g,
+		g.anyFunc("GoBackNConn", "sendPacketsForever"), "g.pongTicker.Reset", "!g.pongTicker.IsActive()")))
 	o.f("def lock_tickerResetWithInterval : String := %s\n",
 		leanStr(lockedFirst(g, g.anyFunc("IntervalAwareForceTicker", "ResetWithInterval"))))
 	o.f("def lock_tickerStop : String := %s\n",
